@@ -19,6 +19,7 @@ namespace SqlObjVerif.Conc
 /-- initial configuration: cache contents (objects `0 … fresh-1`, referenced by the environment),
     existing rows, cull parameters/counters and one program per thread -/
 structure Cfg where
+  dc : Bool
   caches : Bool
   strong : AMap
   weak : AMap
@@ -32,12 +33,13 @@ structure Cfg where
   progs : Tid → List Op
 
 def Cfg.init (c : Cfg) : State :=
-  mkInit c.caches c.strong c.weak c.db c.fresh c.freq c.frac c.cc c.off c.pins c.progs
+  mkInit c.dc c.caches c.strong c.weak c.db c.fresh c.freq c.frac c.cc c.off c.pins c.progs
 
 /-- the initial maps are dicts (unique keys), hold one object per id, and every object in them was
     allocated before `fresh` -/
 def Cfg.OK (c : Cfg) : Prop :=
-  ((akeys c.strong).Nodup ∧ (akeys c.weak).Nodup ∧ (∀ o ∈ avals c.strong ++ avals c.weak, o < c.fresh)) ∧
+  ((akeys c.strong).Nodup ∧ (akeys c.weak).Nodup ∧ (∀ o ∈ avals c.strong ++ avals c.weak, o < c.fresh) ∧
+    (c.dc = false → c.strong = [])) ∧
   ∀ i o p, aget c.strong i = some o → aget c.weak i = some p → o = p
 
 /-- no thread's program contains `create` (the only lock-free writer of the maps) -/
@@ -55,7 +57,7 @@ def FreshCreates (c : Cfg) : Prop :=
   (∀ i, (aget c.strong i ≠ none ∨ aget c.weak i ≠ none) → i ∈ c.db)
 
 /-- the class of programs for which the map clauses are proved -/
-def SafeProgs (c : Cfg) : Prop := NoCreateProgs c ∨ (NoExpireAllProgs c ∧ FreshCreates c)
+def SafeProgs (c : Cfg) : Prop := NoCreateProgs c ∨ (c.dc = true ∧ NoExpireAllProgs c ∧ FreshCreates c)
 
 /-! ### the same hypothesis as a decidable predicate on a finite list of programs (`progsOf l t = l.getD t []`) -/
 def FreshL (l : List (List Op)) (strong weak : AMap) (db : List Id) : Prop :=
@@ -65,13 +67,15 @@ def FreshL (l : List (List Op)) (strong weak : AMap) (db : List Id) : Prop :=
   (∀ p ∈ l, ∀ i ∈ progCrIds p, i ∉ db) ∧
   (∀ kv ∈ strong ++ weak, kv.1 ∈ db)
 
-def SafeL (l : List (List Op)) (strong weak : AMap) (db : List Id) : Prop :=
-  (∀ p ∈ l, ∀ op ∈ p, isCreate op = false) ∨ ((∀ p ∈ l, ∀ op ∈ p, isEA op = false) ∧ FreshL l strong weak db)
+def SafeL (dc : Bool) (l : List (List Op)) (strong weak : AMap) (db : List Id) : Prop :=
+  (∀ p ∈ l, ∀ op ∈ p, isCreate op = false) ∨
+  (dc = true ∧ (∀ p ∈ l, ∀ op ∈ p, isEA op = false) ∧ FreshL l strong weak db)
 
 instance (l : List (List Op)) (strong weak : AMap) (db : List Id) : Decidable (FreshL l strong weak db) := by
   unfold FreshL; infer_instance
 
-instance (l : List (List Op)) (strong weak : AMap) (db : List Id) : Decidable (SafeL l strong weak db) := by
+instance (dc : Bool) (l : List (List Op)) (strong weak : AMap) (db : List Id) :
+    Decidable (SafeL dc l strong weak db) := by
   unfold SafeL; infer_instance
 
 theorem C09_fresh_of_list (l : List (List Op)) (c : Cfg) (hp : c.progs = progsOf l)
@@ -105,39 +109,39 @@ theorem C09_fresh_of_list (l : List (List Op)) (c : Cfg) (hp : c.progs = progsOf
 
 /-- the decidable list predicate implies the hypothesis of the theorems -/
 theorem C09_safe_of_list (l : List (List Op)) (c : Cfg) (hp : c.progs = progsOf l)
-    (h : SafeL l c.strong c.weak c.db) : SafeProgs c := by
-  rcases h with h | ⟨h1, h2⟩
+    (h : SafeL c.dc l c.strong c.weak c.db) : SafeProgs c := by
+  rcases h with h | ⟨hd, h1, h2⟩
   · left; rw [NoCreateProgs, hp]; exact all_of_list isCreate l h
-  · right; refine ⟨?_, C09_fresh_of_list l c hp h2⟩
+  · right; refine ⟨hd, ?_, C09_fresh_of_list l c hp h2⟩
     rw [NoExpireAllProgs, hp]; exact all_of_list isEA l h1
 
 instance (s : State) (i : Id) (o : Obj) : Decidable (Reach s i o) := by unfold Reach; infer_instance
 
-theorem C09_init_invs (c : Cfg) (hc : c.OK) : AInv c.init ∧ BInv c.init ∧ FInv c.init ∧ EInv c.init :=
-  ⟨ainv_init _ _ _ _ _ _ _ _ _ _ _ hc.1.1 hc.1.2.1, binv_init _ _ _ _ _ _ _ _ _ _ _ hc.2,
-   finv_init _ _ _ _ _ _ _ _ _ _ _ (fun o ho => hc.1.2.2 o (by simp [ho])) (fun o ho => hc.1.2.2 o (by simp [ho])),
-   einv_init _ _ _ _ _ _ _ _ _ _ _⟩
+theorem C09_init_invs (c : Cfg) (hc : c.OK) : AInv c.init ∧ BInv c.init ∧ FInv c.init ∧ MdInv c.init ∧ EInv c.init :=
+  ⟨ainv_init _ _ _ _ _ _ _ _ _ _ _ _ hc.1.1 hc.1.2.1, binv_init _ _ _ _ _ _ _ _ _ _ _ _ hc.2,
+   finv_init _ _ _ _ _ _ _ _ _ _ _ _ (fun o ho => hc.1.2.2.1 o (by simp [ho])) (fun o ho => hc.1.2.2.1 o (by simp [ho])),
+   mdinv_init _ _ _ _ _ _ _ _ _ _ _ _ hc.1.2.2.2, einv_init _ _ _ _ _ _ _ _ _ _ _ _⟩
 
 /-- all invariant layers at the end of any schedule, for a safe configuration -/
 theorem C09_safe_inv (c : Cfg) (hc : c.OK) (hs : SafeProgs c) (sched : List Tid) :
     BInv (run c.init sched) ∧ EInv (run c.init sched) := by
-  obtain ⟨ha, hb, hfi, he⟩ := C09_init_invs c hc
-  rcases hs with hn | ⟨hn, hf1, hf2, hf3, hf4⟩
-  · have hnn : NoCreate c.init := nocreate_init _ _ _ _ _ _ _ _ _ _ _ hn
-    exact ⟨(inv_run _ sched ha hb hfi hnn).2.1, inv_run_e _ sched ha hb hfi hnn he⟩
-  · have hf : Fresh c.init := fresh_init _ _ _ _ _ _ _ _ _ _ _ hf1 hf2
-    have hne : NoEA c.init := noea_init _ _ _ _ _ _ _ _ _ _ _ hn
-    have hci : CInv c.init := cinv_init _ _ _ _ _ _ _ _ _ _ _ hf4 hf3
-    have := inv_run_fresh _ sched ha hb hfi hf hne hci he
+  obtain ⟨ha, hb, hfi, hm, he⟩ := C09_init_invs c hc
+  rcases hs with hn | ⟨hd, hn, hf1, hf2, hf3, hf4⟩
+  · have hnn : NoCreate c.init := nocreate_init _ _ _ _ _ _ _ _ _ _ _ _ hn
+    exact ⟨(inv_run _ sched ha hb hfi hm hnn).2.1, inv_run_e _ sched ha hb hfi hm hnn he⟩
+  · have hf : Fresh c.init := fresh_init _ _ _ _ _ _ _ _ _ _ _ _ hf1 hf2
+    have hne : NoEA c.init := noea_init _ _ _ _ _ _ _ _ _ _ _ _ hn
+    have hci : CInv c.init := cinv_init _ _ _ _ _ _ _ _ _ _ _ _ hf4 hf3
+    have := inv_run_fresh _ sched ha hb hfi hm hd hf hne hci he
     exact ⟨this.2.1, this.2.2.2.2.2⟩
 
 theorem C09_safe_reach (c : Cfg) (hc : c.OK) (hs : SafeProgs c) (sched : List Tid) (i : Id) (o : Obj)
     (hr : Reach c.init i o) (hal : Held c.init o) : Reach (run c.init sched) i o := by
-  obtain ⟨ha, hb, hfi, _⟩ := C09_init_invs c hc
-  rcases hs with hn | ⟨hn, hf1, hf2, hf3, hf4⟩
-  · exact reach_run _ sched ha hb hfi (nocreate_init _ _ _ _ _ _ _ _ _ _ _ hn) i o hr hal
-  · exact reach_run_fresh _ sched ha hb hfi (fresh_init _ _ _ _ _ _ _ _ _ _ _ hf1 hf2)
-      (noea_init _ _ _ _ _ _ _ _ _ _ _ hn) (cinv_init _ _ _ _ _ _ _ _ _ _ _ hf4 hf3) i o hr hal
+  obtain ⟨ha, hb, hfi, hm, _⟩ := C09_init_invs c hc
+  rcases hs with hn | ⟨hd, hn, hf1, hf2, hf3, hf4⟩
+  · exact reach_run _ sched ha hb hfi hm (nocreate_init _ _ _ _ _ _ _ _ _ _ _ _ hn) i o hr hal
+  · exact reach_run_fresh _ sched ha hb hfi hm hd (fresh_init _ _ _ _ _ _ _ _ _ _ _ _ hf1 hf2)
+      (noea_init _ _ _ _ _ _ _ _ _ _ _ _ hn) (cinv_init _ _ _ _ _ _ _ _ _ _ _ _ hf4 hf3) i o hr hal
 
 /-! ## full theorems: every program, every schedule, any number of threads -/
 
@@ -146,7 +150,7 @@ theorem C09_safe_reach (c : Cfg) (hc : c.OK) (hs : SafeProgs c) (sched : List Ti
     unique keys; every key the holder is about to `del` / read (`needS`, `needW`) is still there, so no
     KeyError and no release of a free lock can occur. -/
 theorem C09_conc_inv (c : Cfg) (hc : c.OK) (sched : List Tid) : AInv (run c.init sched) :=
-  ainv_run _ sched (ainv_init _ _ _ _ _ _ _ _ _ _ _ hc.1.1 hc.1.2.1)
+  ainv_run _ sched (ainv_init _ _ _ _ _ _ _ _ _ _ _ _ hc.1.1 hc.1.2.1)
 
 /-- when every thread has finished, the cache lock is free -/
 theorem C09_lock_free_at_quiescence (c : Cfg) (hc : c.OK) (sched : List Tid)
@@ -237,7 +241,7 @@ theorem C09_no_exception_but_notfound_partial (c : Cfg) (hc : c.OK) (hn : SafePr
   ((C09_safe_inv c hc hn sched).2 t).2 e
 
 /-- `expire` is the only source of `stale`: without it the partial theorems are unconditional -/
-example : (run (Cfg.init ⟨true, [(1, 0)], [], [1], 1, 100, 2, 0, 0, [0], fun t => if t < 2 then [.get 1] else []⟩)
+example : (run (Cfg.init ⟨true, true, [(1, 0)], [], [1], 1, 100, 2, 0, 0, [0], fun t => if t < 2 then [.get 1] else []⟩)
     [0, 1, 0, 1, 0, 1, 0, 1]).stale = [] := by decide
 
 /-! ## the full statements are FALSE of the current code: concrete schedules (replayed on the real
@@ -245,11 +249,11 @@ example : (run (Cfg.init ⟨true, [(1, 0)], [], [1], 1, 100, 2, 0, 0, [0], fun t
 
 /-- thread 0 creates row 7 while thread 1 runs `expireAll`; the cache holds row 1 (object 0) -/
 def wCreateExpireAll : Cfg :=
-  ⟨true, [(1, 0)], [], [1], 1, 100, 2, 0, 0, [0], progsOf [[.create 7], [.expireAll]]⟩
+  ⟨true, true, [(1, 0)], [], [1], 1, 100, 2, 0, 0, [0], progsOf [[.create 7], [.expireAll]]⟩
 
 /-- thread 0 creates row 7 while thread 1 gets row 7 -/
 def wCreateGet : Cfg :=
-  ⟨true, [(1, 0)], [], [1], 1, 100, 2, 0, 0, [0], progsOf [[.create 7], [.get 7]]⟩
+  ⟨true, true, [(1, 0)], [], [1], 1, 100, 2, 0, 0, [0], progsOf [[.create 7], [.get 7]]⟩
 
 theorem C09_wCreateExpireAll_OK : wCreateExpireAll.OK :=
   ⟨by decide, by intro i o p _ h2; simp [wCreateExpireAll] at h2⟩
@@ -339,7 +343,7 @@ theorem C09_same_object_needs_fresh_FALSE :
   decide
 
 /-- one thread creating a row that already exists: IntegrityError (the "not yet a row" conjunct) -/
-def wDup : Cfg := ⟨true, [(1, 0)], [], [1], 1, 100, 2, 0, 0, [0], progsOf [[.create 1]]⟩
+def wDup : Cfg := ⟨true, true, [(1, 0)], [], [1], 1, 100, 2, 0, 0, [0], progsOf [[.create 1]]⟩
 
 theorem C09_no_exception_needs_new_row_FALSE :
     ¬ (∀ (c : Cfg), c.OK → NoExpireAllProgs c → ∀ (sched : List Tid) (t : Tid) (e : Exc),
@@ -350,12 +354,12 @@ theorem C09_no_exception_needs_new_row_FALSE :
 
 /-- non-vacuity of the partial theorems on a program WITH creates: two threads create 7 and 8 while a third
     gets rows 1 and 2 and culls — `SafeL` holds by `decide` -/
-example : SafeL [[.create 7, .get 7], [.create 8, .cull], [.get 1, .get 2, .expire 1]] [(1, 0)] [(2, 1)] [1, 2] := by
+example : SafeL true [[.create 7, .get 7], [.create 8, .cull], [.get 1, .get 2, .expire 1]] [(1, 0)] [(2, 1)] [1, 2] := by
   decide
 
 /-- … and the theorems apply to it for every schedule -/
 def wSafe : Cfg :=
-  ⟨true, [(1, 0)], [(2, 1)], [1, 2], 2, 0, 2, 1, 0, [],
+  ⟨true, true, [(1, 0)], [(2, 1)], [1, 2], 2, 0, 2, 1, 0, [],
    progsOf [[.create 7, .get 7], [.create 8, .cull], [.get 1, .get 2, .expire 1]]⟩
 
 example (sched : List Tid) (t : Tid) (e : Exc) : Out.exc e ∉ ((run wSafe.init sched).th t).outs :=
@@ -367,15 +371,34 @@ example (sched : List Tid) (t : Tid) (e : Exc) : Out.exc e ∉ ((run wSafe.init 
 
 /-- row 3 is only weakly cached and nobody holds its instance: `get(3)` finds the dead reference, drops the
     entry and builds a new instance (object 2) -/
-example : ((run (Cfg.init ⟨true, [(1, 0)], [(3, 1)], [1, 3], 2, 100, 2, 0, 0, [0], progsOf [[.get 3]]⟩)
+example : ((run (Cfg.init ⟨true, true, [(1, 0)], [(3, 1)], [1, 3], 2, 100, 2, 0, 0, [0], progsOf [[.get 3]]⟩)
     (List.replicate 12 0)).th 0).outs = [.obj 3 2] := by decide
 
 /-- the same entry when the environment still references the instance: `get(3)` revives object 1 -/
-example : ((run (Cfg.init ⟨true, [(1, 0)], [(3, 1)], [1, 3], 2, 100, 2, 0, 0, [0, 1], progsOf [[.get 3]]⟩)
+example : ((run (Cfg.init ⟨true, true, [(1, 0)], [(3, 1)], [1, 3], 2, 100, 2, 0, 0, [0, 1], progsOf [[.get 3]]⟩)
     (List.replicate 12 0)).th 0).outs = [.obj 3 1] := by decide
 
 /-- `cull` pops the dead entry and does not keep a weak reference to an unreferenced instance it evicts -/
-example : (run (Cfg.init ⟨true, [(1, 0)], [(3, 1)], [1, 3], 2, 100, 2, 0, 0, [], progsOf [[.cull]]⟩)
+example : (run (Cfg.init ⟨true, true, [(1, 0)], [(3, 1)], [1, 3], 2, 100, 2, 0, 0, [], progsOf [[.cull]]⟩)
     (List.replicate 12 0)).weak = [] := by decide
+
+/-! ## doCache = False: only `expiredCache` is used -/
+
+/-- two threads get the uncached row 4 with doCache = False, any schedule: the partial theorems apply
+    (no create), e.g. no exception, and both end up with the same instance -/
+def wNoCache : Cfg :=
+  ⟨false, true, [], [(1, 0)], [1, 4], 1, 100, 2, 0, 0, [0], progsOf [[.get 4], [.get 4, .expireAll], [.get 1]]⟩
+
+example (sched : List Tid) (t : Tid) (e : Exc) : Out.exc e ∉ ((run wNoCache.init sched).th t).outs :=
+  C09_no_exception_but_notfound_partial wNoCache
+    ⟨by decide, by intro i o p h1 _; simp [wNoCache] at h1⟩
+    (C09_safe_of_list _ wNoCache rfl (by decide)) sched t e
+
+def schedNoCache : List Tid := [0, 1, 0, 1, 0, 1, 1, 1, 1, 0, 0, 0, 1, 1, 1, 0, 0, 1, 1, 1, 1, 0, 0, 0, 0]
+
+example : ((run wNoCache.init schedNoCache).th 0).outs = [.obj 4 1] ∧
+    ((run wNoCache.init schedNoCache).th 1).outs = [.obj 4 1, .unit] ∧
+    (run wNoCache.init schedNoCache).strong = [] := by
+  decide
 
 end SqlObjVerif.Conc
